@@ -302,10 +302,25 @@ func main() {
 		jobs = append(jobs, job{Name: "bondgo-" + name, Tool: "bondgo", Class: "bondgo", Files: map[string]string{"p.go": src},
 			Args: []string{"-input-file", "p.go", "-save-assembly", "out.asm", "-show-requirements", "-register-size", "8"}, Outputs: []string{"out.asm", "STDOUT"}})
 	}
+	// multi-processor mode: I/O ids shared between processors (an external input read by main and by a
+	// goroutine; one processor writing an id that two goroutines read; two goroutines writing distinct
+	// external outputs)
+	mpmProgs := map[string]string{
+		"mpm-shared-external-input": "package main\n\nimport \"bondgo\"\n\nfunc worker(cout chan uint8) {\n\tvar in0 bondgo.Input\n\tvar reg_x uint8\n\tin0 = bondgo.Make(bondgo.Input, 3)\n\tfor {\n\t\treg_x = bondgo.IORead(in0)\n\t\tcout <- reg_x\n\t}\n}\n\nfunc main() {\n\tvar in0 bondgo.Input\n\tvar out0 bondgo.Output\n\tvar c0 chan uint8\n\tvar reg_a uint8\n\tvar reg_b uint8\n\tin0 = bondgo.Make(bondgo.Input, 3)\n\tout0 = bondgo.Make(bondgo.Output, 5)\n\tgo worker(c0)\n\tfor {\n\t\treg_a = bondgo.IORead(in0)\n\t\treg_b = <-c0\n\t\treg_a = reg_a + reg_b\n\t\tbondgo.IOWrite(out0, reg_a)\n\t}\n}\n",
+		"mpm-one-writer-two-readers": "package main\n\nimport \"bondgo\"\n\nfunc reader1() {\n\tvar lin bondgo.Input\n\tvar o1 bondgo.Output\n\tvar reg_x uint8\n\tlin = bondgo.Make(bondgo.Input, 7)\n\to1 = bondgo.Make(bondgo.Output, 11)\n\tfor {\n\t\treg_x = bondgo.IORead(lin)\n\t\treg_x++\n\t\tbondgo.IOWrite(o1, reg_x)\n\t}\n}\n\nfunc reader2() {\n\tvar lin bondgo.Input\n\tvar o2 bondgo.Output\n\tvar reg_y uint8\n\tlin = bondgo.Make(bondgo.Input, 7)\n\to2 = bondgo.Make(bondgo.Output, 12)\n\tfor {\n\t\treg_y = bondgo.IORead(lin)\n\t\treg_y = reg_y + 2\n\t\tbondgo.IOWrite(o2, reg_y)\n\t}\n}\n\nfunc main() {\n\tvar lout bondgo.Output\n\tvar in0 bondgo.Input\n\tvar reg_a uint8\n\tlout = bondgo.Make(bondgo.Output, 7)\n\tin0 = bondgo.Make(bondgo.Input, 1)\n\tgo reader1()\n\tgo reader2()\n\tfor {\n\t\treg_a = bondgo.IORead(in0)\n\t\tbondgo.IOWrite(lout, reg_a)\n\t}\n}\n",
+	}
+	for name, src := range mpmProgs {
+		jobs = append(jobs, job{Name: "bondgo-" + name, Tool: "bondgo", Class: "bondgo-mpm", Files: map[string]string{"p.go": src},
+			Args: []string{"-mpm", "-input-file", "p.go", "-save-assembly", "out.asm", "-save-bondmachine", "m.json", "-show-requirements", "-register-size", "8"}, Outputs: []string{"DIR", "STDOUT"}})
+	}
 	// ---- run the process-level jobs ----
 	gmps := []int{1, 2, 4, 16}
 	produced := map[string]map[string]string{} // job name -> files of the first good run (for the second stage)
 	judge := func(j job) {
+		n := n
+		if j.Class == "bondgo-mpm" {
+			n *= 3 // short runs; a two-element map order showed up in only one run out of seven here
+		}
 		run.Eval(int64(n))
 		outs := make([]outcome, n)
 		hx.Par(n, func(r int) {
